@@ -559,4 +559,30 @@ theorem tip_is_served_after_pruning {U} (hU : WFU U) (ops : List NodeOp) :
   have := hw.length
   omega
 
+/-! ### the known finding `prune-skips-bodies-below-a-gap`, as a theorem about the model
+
+The theorems above speak of histories of `AddBlocks` and `PruneBlocks`. `AddValidatedV2Blocks`
+stores what it is given, pruned blocks included (`AddBlocks` skips them); with it in the history the
+clause "after `PruneBlocks(h)` the best-chain bodies below `h` are gone" is FALSE of the model — and
+of the code, on which the harness replays this history (the `island` step of `harness/c19`). -/
+
+def Uv2 : Nat → Blk
+  | 1 => ⟨0, 1, 200, 100, true, true, false, true⟩
+  | 2 => ⟨1, 2, 300, 100, true, true, false, true⟩
+  | 3 => ⟨2, 3, 400, 100, true, true, false, true⟩
+  | 4 => ⟨3, 4, 500, 100, true, true, false, true⟩
+  | _ => ⟨0, 0, 100, 100, false, false, false, false⟩
+
+/-- chain 1-2-3-4; prune below 3; block 1 is handed over again pre-validated (its body returns
+under the pruned block 2); `PruneBlocks(4)` then stops at block 2 and never reaches block 1 -/
+theorem prune_misses_island_witness :
+    let m0 := (addBlocks Uv2 Mgr.init [1, 2, 3, 4]).1
+    let m1 := prune m0 3
+    let m2 := (addValidatedV2 Uv2 m1 [1] 1).1
+    let m3 := prune m2 4
+    m0.best = [4, 3, 2, 1, 0] ∧ (m1.block 1).isNone = true ∧ (m1.block 2).isNone = true ∧
+    (m2.block 1).isSome = true ∧
+    m3.bestAt 1 = some 1 ∧ (m3.block 1).isSome = true ∧ (m3.block 2).isNone = true ∧
+    (m3.block 3).isNone = true ∧ m3.tipHeight = 4 ∧ minReorgIndex m3 = 4 := by decide
+
 end Verif.C19
